@@ -191,9 +191,20 @@ class Adapter:
     def repaired_bits(self):
         return "-"
 
+    # set_params histories: the tracked constructor parameter and its second value
+    alt = ("?", None)
+
+    def make_alt(self, cfg):
+        """a FRESH estimator constructed (not set_params, not clone) with the second value of the tracked parameter"""
+        e = self.make(cfg)
+        params = dict(e.get_params(deep=False))
+        params[self.alt[0]] = self.alt[1]
+        return type(e)(**params)
+
 
 class TOAdapter(Adapter):
     name, lean = "TO", "to"
+    alt = ("grid_size", 7)
     cfgs = ("dp-proba", "eo-sticky", "tpr-df")
     quick_cfgs = ("dp-proba", "eo-sticky")
 
@@ -231,6 +242,7 @@ class TOAdapter(Adapter):
 
 class CRAdapter(Adapter):
     name, lean = "CR", "cr"
+    alt = ("alpha", 0.25)
     cfgs = ("nd-same", "nd-wide", "df-wide", "df-moved")
     quick_cfgs = ("nd-same", "nd-wide", "df-wide", "df-moved")
 
@@ -274,6 +286,7 @@ class CRAdapter(Adapter):
 
 class GSAdapter(Adapter):
     name, lean = "GS", "gs"
+    alt = ("constraint_weight", 1.0)
     cfgs = ("dp-stump", "eo-sticky", "bgl-reg")
     quick_cfgs = ("dp-stump", "eo-sticky")
 
@@ -308,6 +321,7 @@ class GSAdapter(Adapter):
 
 class EGAdapter(Adapter):
     name, lean = "EG", "eg"
+    alt = ("eps", 0.25)
     cfgs = ("dp-nuNone", "eo-sticky-nu", "tpr-noLP")
     quick_cfgs = ("dp-nuNone", "eo-sticky-nu")
 
@@ -349,6 +363,7 @@ class EGAdapter(Adapter):
 
 class ADVAdapter(Adapter):
     name, lean = "ADV", "adv"
+    alt = ("learning_rate", 0.01)
     cfgs = ("clf-dp", "reg-eo-shuffle", "clf-eo-sgd")
     quick_cfgs = ("clf-dp", "reg-eo-shuffle")
     atol = ATOL_TORCH
@@ -389,6 +404,8 @@ class ADVAdapter(Adapter):
         return "1"
 
 
+PARAM_CFG = {"TO": "dp-proba", "CR": "nd-same", "GS": "dp-stump", "EG": "eo-sticky-nu", "ADV": "clf-dp"}
+NU_NONE_CFGS = ("dp-nuNone", "tpr-noLP")     # F5c interferes with the set_params histories: kept out of that family
 ADAPTERS = {a.name: a for a in (TOAdapter(), CRAdapter(), GSAdapter(), EGAdapter(), ADVAdapter())}
 ORDER = ("CR", "TO", "GS", "ADV", "EG")
 
@@ -557,6 +574,21 @@ def twins(ad, cfg, pair):
     return tw
 
 
+def twins_alt(ad, cfg, pair):
+    """twins + fresh estimators constructed with the second value of the tracked parameter: D1', D2'"""
+    key = (ad.name, cfg, pair, "alt")
+    if key in _TWINS:
+        return _TWINS[key]
+    tw = dict(twins(ad, cfg, pair))
+    for which in (1, 2):
+        e = ad.make_alt(cfg)
+        ad.fit(e, cfg, ad.data(cfg, pair, which))
+        tw[f"D{which}'"] = snapshot(ad, e, cfg, pair)
+    tw["U'"] = snapshot(ad, ad.make_alt(cfg), cfg, pair)
+    _TWINS[key] = tw
+    return tw
+
+
 def classify(ad, snap, tw):
     names = [n for n, s in tw.items() if same_snapshot(snap, s, ad.atol)]
     if names:
@@ -570,9 +602,9 @@ def classify(ad, snap, tw):
 # ----------------------------------------------------------------------------------------------
 # running a sequence on the implementation
 # ----------------------------------------------------------------------------------------------
-def run_sequence(ad, cfg, pair, ops):
+def run_sequence(ad, cfg, pair, ops, tw=None):
     est = ad.make(cfg)
-    tw = twins(ad, cfg, pair)
+    tw = tw if tw is not None else twins(ad, cfg, pair)
     prev = snapshot(ad, est, cfg, pair)
     trace = []
     for op in ops:
@@ -608,6 +640,13 @@ def run_sequence(ad, cfg, pair, ops):
                 est = pickle.loads(blob)
                 same_object = False
                 rec["res"] = "ok"
+        elif op == "s":
+            try:
+                r = est.set_params(**{ad.alt[0]: ad.alt[1]})
+                rec["res"] = "ok" if r is est else "other"
+            except Exception as e:  # noqa: BLE001
+                rec["res"] = "raise." + type(e).__name__
+                rec["detail"] = str(e)[:80]
         elif op == "c":
             try:
                 est = clone(est)
@@ -681,7 +720,7 @@ class CHECK(Check):
                   "the Python specification automaton. PARTIAL: the machines model latches and attribute presence, "
                   "not Python object identity, pickle or clone internals, nor the learned numbers.")
     design_ref = "DESIGN.md section 4 (C19), section 5 (F5a-F5e), section 6 (partial)"
-    quick_cases = 1625
+    quick_cases = 1700
     thorough_cases = 600
     # sized for ~80-110 s of work on a quiet machine; the budget only cuts the run on an overloaded one
     quick_budget_s = int(os.environ.get("VERIF_C19_BUDGET_S", "225"))
@@ -723,7 +762,16 @@ class CHECK(Check):
                 for cfg in ad.quick_cfgs:
                     for ops in itertools.product(ALPHABET, repeat=3):
                         yield {"cls": name, "cfg": cfg, "pair": 0, "ops": list(ops)}
+        yield from self.params_family(tier)
         while True:
+            if rng.random() < 0.12:
+                name = rng.choice(ORDER)
+                cfgp = PARAM_CFG[name] if tier == "quick" else rng.choice([c for c in ADAPTERS[name].cfgs if c not in NU_NONE_CFGS])
+                ops = [rng.choice(["f1", "f2", "f1", "f2", "s", "s", "c", "k", "p3"]) for _ in range(4)]
+                if "s" not in ops:
+                    ops[rng.randrange(3)] = "s"
+                yield {"kind": "params", "cls": name, "cfg": cfgp, "pair": rng.randint(0, N_PAIRS - 1), "ops": ops}
+                continue
             name = rng.choice(ORDER)
             ad = ADAPTERS[name]
             cfg = rng.choice(ad.cfgs)
@@ -733,6 +781,18 @@ class CHECK(Check):
                 o = rng.choice(["f1", "f2", "f1", "f2", "p", "k", "c"])
                 ops.append("p" + str(rng.randint(0, 9)) if o == "p" else o)
             yield {"cls": name, "cfg": cfg, "pair": rng.randint(0, N_PAIRS - 1), "ops": ops}
+
+    def params_family(self, tier):
+        """histories with one set_params(p=v): [s,f], [s,c,f], [s,k,f], [x,s,y] (thorough also [s,x,y]), x,y in {f1,f2,c,k}"""
+        for name in ORDER:
+            for ops in (["s", "f1"], ["s", "f2"], ["s", "c", "f2"], ["s", "k", "f1"]):
+                yield {"kind": "params", "cls": name, "cfg": PARAM_CFG[name], "pair": 1, "ops": ops}
+            for ops in itertools.product(["f1", "f2", "c", "k"], repeat=2):
+                positions = (0, 1) if tier == "thorough" else (1,)
+                for pos in positions:
+                    o = list(ops)
+                    o.insert(pos, "s")
+                    yield {"kind": "params", "cls": name, "cfg": PARAM_CFG[name], "pair": 1, "ops": o}
 
     def exhaustive(self, tier):
         for name in ORDER:
@@ -755,6 +815,11 @@ class CHECK(Check):
         rules = probe_rules()
         tw = twins(ad, case["cfg"], case["pair"])
         distinct = not same_snapshot(tw["D1"], tw["D2"], ad.atol) and not same_snapshot(tw["D1"], tw["U"], ad.atol)
+        if case.get("kind") == "params":
+            twa = twins_alt(ad, case["cfg"], case["pair"])
+            trace = run_sequence(ad, case["cfg"], case["pair"], case["ops"], tw=twa)
+            alt_distinct = not same_snapshot(twa["D1"], twa["D1'"], ad.atol) or not same_snapshot(twa["D2"], twa["D2'"], ad.atol)
+            return {"rules": rules, "twins_distinct": distinct, "alt_distinct": alt_distinct, "trace": trace}
         trace = run_sequence(ad, case["cfg"], case["pair"], case["ops"])
         return {"rules": rules, "twins_distinct": distinct, "trace": trace}
 
@@ -762,6 +827,9 @@ class CHECK(Check):
         if "crash" in o:
             return []
         ad = ADAPTERS[case["cls"]]
+        if case.get("kind") == "params":
+            ops = ",".join(case["ops"])
+            return [f"lifeparam.run {ad.lean} {ops}", f"lifeparam.spec {ops}"]
         w = ",".join(str(x) for x in ad.widths(case["cfg"]))
         ops = ",".join(case["ops"]) if case["ops"] else "-"
         cfg = ad.lean_cfg(case["cfg"])
@@ -777,6 +845,8 @@ class CHECK(Check):
             return [mk("correspondence", f"harness adapter crashed: {o}", "C19.impl-total")]
         ad = ADAPTERS[case["cls"]]
         name, cfg, ops = case["cls"], case["cfg"], case["ops"]
+        if case.get("kind") == "params":
+            return self.judge_params(case, o, mo)
         probs = []
         if not o["twins_distinct"]:
             return [Problem("harness", f"twins of {name}/{cfg} pair {case['pair']} are not distinguishable")]
@@ -894,8 +964,78 @@ class CHECK(Check):
                     break
         return probs
 
+    def judge_params(self, case, o, mo):
+        """histories with set_params: after `fit(D)` the estimator must equal a FRESH estimator constructed with the
+        current parameters (D<k> = constructor values, D<k>' = second value of the tracked parameter) fitted on D"""
+        ad = ADAPTERS[case["cls"]]
+        name, cfg, ops = case["cls"], case["cfg"], case["ops"]
+        probs = []
+        p, fitted, stale = 0, None, False      # stale: a set_params since construction / the last clone
+        want = []
+        for i, (op, rec) in enumerate(zip(ops, o["trace"])):
+            where = f"op {i} ({op}) of {ops} on {name}/{cfg} [{ad.alt[0]}: constructor value -> {ad.alt[1]}]"
+            base = dict(cls=name, cfg=cfg, op=op, index=i, family="params")
+            exp = None
+            if op[0] == "f":
+                d = int(op[1:])
+                fitted = (d, p)
+                exp = f"D{d}" + ("'" if p else "")
+                if rec["res"].startswith("raise."):
+                    probs.append(mk("property", f"{where}: fit raised {rec['res'][6:]}: {rec.get('detail', '')}", "C19.fit_total",
+                                    exc=rec["res"][6:], detail=rec.get("detail", ""), prior_fit=True, refit=True,
+                                    width_change=False, **base))
+                else:
+                    if rec["res"] != "self":
+                        probs.append(mk("property", f"{where}: fit returned {rec['res']}", "C19.fit_returns_self", ret=rec["res"], **base))
+                    if rec["changed"]:
+                        probs.append(mk("property", f"{where}: get_params(deep=False) changed during fit: {rec['changed']}",
+                                        "C19.params_unchanged", changed=rec["changed"], nu_before_none=False, **base))
+                    if exp not in rec["cls"]:
+                        probs.append(mk("property",
+                                        f"{where}: fitted estimator differs from a fresh estimator constructed with the current "
+                                        f"parameters and fitted on D{d} (expected twin {exp}, it matches {rec['cls'] or 'no twin'})",
+                                        "C19.set_params_history_free", stale=stale, matches=rec["cls"], **base))
+            elif op == "s":
+                expect_changed = [ad.alt[0]] if p == 0 else []
+                p, stale = 1, True
+                if rec["res"] != "ok" or rec["changed"] != expect_changed:
+                    probs.append(mk("correspondence", f"{where}: set_params gave {rec['res']}, changed parameters {rec['changed']}",
+                                    "C19.set_params_sets", **base))
+            elif op == "c":
+                fitted, stale = None, False
+                if rec["res"] != "ok" or not ({"U", "U'"} & set(rec["cls"])):
+                    probs.append(mk("property", f"{where}: clone failed or is not unfitted ({rec['res']}, {rec['cls']})", "C19.clone",
+                                    what="state", **base))
+            want.append(exp)
+        if mo is not None:
+            if len(mo) != 2 or "bad-op" in mo:
+                return probs + [Problem("harness", f"driver rejected the case: {mo}")]
+            mach, spec = [[t.split(":") for t in line.split(";")] for line in mo]
+            for i, (op, m, sp, exp, rec) in enumerate(zip(ops, mach, spec, want, o["trace"])):
+                if exp is not None and sp[1] != exp:
+                    probs.append(Problem("harness", f"Lean specification {sp} != Python specification {exp} at op {i} of {ops}"))
+                if exp is not None and not rec["res"].startswith("raise."):
+                    # machine says X = "fitted with the new parameter and the stale derived attribute": the learned numbers
+                    # may coincide with a twin, so X constrains nothing; a definite twin must be matched
+                    ok = True if m[1] == "X" else (m[1] == exp and m[1] in rec["cls"])
+                    if not ok:
+                        probs.append(mk("correspondence",
+                                        f"op {i} ({op}) of {ops} on {name}/{cfg}: implementation matches {rec['cls']}, the machine over "
+                                        f"the lifted source (fit reads a parameter-derived attribute: {m[1] == 'X'}) says {m[1]}",
+                                        "C19.params_model_trace", cls=name, cfg=cfg, op=op, index=i))
+                        break
+        return probs
+
     def signature(self, case, o):
         ops = case["ops"]
+        if case.get("kind") == "params":
+            key = ("params", case["cls"], case["cfg"], case["pair"], tuple(ops))
+            tags = [f"cls={case['cls']}", "family=set_params", f"len={len(ops)}"]
+            for rec in o.get("trace", []):
+                tags.append(f"{rec['op'][0]}->{rec['res']}")
+                if rec["op"][0] == "f":
+                    tags.append("state=" + ("|".join(rec["cls"]) or "X"))
+            return key, True, tags
         key = (case["cls"], case["cfg"], case["pair"], tuple(ops))
         tags = [f"cls={case['cls']}", f"cfg={case['cls']}/{case['cfg']}", f"len={len(ops)}", f"pair={case['pair']}"]
         if "trace" in o:
@@ -931,6 +1071,10 @@ class CHECK(Check):
         elif (cls == "EG" and not ADAPTERS["EG"].nu_given(info.get("cfg")) and rel == "C19.history_free"
               and info.get("explained_by_nu")):
             hit = "F5c"
+        # F5f: GridSearch: a fit after set_params(constraint_weight=..) (no clone in between) uses the objective_weight
+        #      computed by __init__ from the OLD constraint_weight
+        elif cls == "GS" and rel == "C19.set_params_history_free" and info.get("stale") and ADAPTERS["GS"].alt[0] == "constraint_weight":
+            hit = "F5f"
         # F5d: adversarial, warm_start=False: a second fit on the same object differs from a fresh fit
         elif cls == "ADV" and rel == "C19.history_free" and info.get("refit"):
             hit = "F5d"
